@@ -17,7 +17,7 @@ from . import common, rel, tlc, walk
 TIERS = {
     "quick": dict(N=3, sample_shapes=400, qdepth=2, qsample=160, sim_num=40, random=250),
     # N=4 does not finish (TLC: > 2 h on 16 cores); the thorough tier replays EVERY N=3 shape and many more random DAGs of 5..10 nodes
-    "thorough": dict(N=3, sample_shapes=None, qdepth=2, qsample=1500, sim_num=600, random=6000),
+    "thorough": dict(N=3, sample_shapes=None, qdepth=2, qsample=1500, sim_num=120, random=6000),
 }
 NP = 3
 
